@@ -88,6 +88,10 @@ def gen_sub(repo):
     return "\n".join(out) + "\n"
 
 
+def build_counting(ex):
+    return open(os.path.join(os.path.dirname(os.path.abspath(__file__)), "lemma_c09.verus.rs")).read()
+
+
 PLAN = dict(
     id="C09",
     level="proof",
@@ -96,6 +100,7 @@ PLAN = dict(
     trusted_base=["Kani 0.68 / CBMC 6.11 / CaDiCaL; Kani's std build (nightly-2026-08-21), not the repo toolchain's", 'core::fmt::Formatter::pad stubbed to Ok(()) with -Z stubbing (panic-message formatting on infeasible error branches; no harness that uses it reads formatted text)', 'Pool::clear stub (Layered::try_close mentions Registry)'],
     assumptions=["ordering clause read as applying to span/event notifications; register_callsite / on_register_dispatch / on_subscribe only 'exactly once' (the code is outer-first there by construction)", 'downcast_raw is type introspection, not a notification: it may be called additionally (Layered::try_close looks for a Registry)', 'reload::Subscriber refuses downcasts by design (documented), so that cell is excluded'],
     not_covered=["fmt::Collector (wraps the real Registry, out of Kani's reach) - its missing on_register_dispatch forwarding was repaired together with Layered's", 'Arc<S> as Subscribe does not exist in this tree'],
+    verus=[dict(name="counting", builder="build_counting", obligations=["absent_gets_nothing", "every_layer_exactly_once", "history_counts"])],
     kani=[dict(
         crate="tracing-core", tls_shim=True, once_cell_stub=True,
         modules=[dict(name="__verif_c09", attach="lib",
